@@ -90,6 +90,7 @@ package action
 //@   ensures [only-own] Kdeleted == old(Kdeleted) || Kdeleted == store(old(Kdeleted), h.Manifest, true)
 //@   ensures [deleted-when-policy] result == nil && hasPolicy(h, policy) && h.Kind != "CustomResourceDefinition" ==> Kdeleted[h.Manifest]
 //@   ensures [hooks-not-started] Kunwatched == old(Kunwatched) && Kcreated == old(Kcreated)
+//@   ensures [C03] [nil-means-no-cluster-call-failed] result == nil ==> KcallFailed == old(KcallFailed)
 //@   ensures [touches-only-hook-resources] forall l kube.ResourceList :: KtouchedLists[l] && !old(KtouchedLists)[l] ==> fresh(l)
 
 //@ func (*Configuration).deleteHooksByPolicy
@@ -97,10 +98,12 @@ package action
 //@   requires cfg != nil && cfg.KubeClient != nil && hooksNonNil(hooks)
 //@   ensures [all] result == nil ==> forall j int :: 0 <= j && j < len(hooks) && hasPolicy(hooks[j], policy) && hooks[j].Kind != "CustomResourceDefinition" ==> Kdeleted[hooks[j].Manifest]
 //@   ensures [hooks-not-started] Kunwatched == old(Kunwatched) && Kcreated == old(Kcreated)
+//@   ensures [C03] [nil-means-no-cluster-call-failed] result == nil ==> KcallFailed == old(KcallFailed)
 //@   ensures [monotone] forall m string :: old(Kdeleted)[m] ==> Kdeleted[m]
 //@   ensures [touches-only-hook-resources] forall l kube.ResourceList :: KtouchedLists[l] && !old(KtouchedLists)[l] ==> fresh(l)
 //@   loop 1 invariant forall j int :: 0 <= j && j < #iter && hasPolicy(hooks[j], policy) && hooks[j].Kind != "CustomResourceDefinition" ==> Kdeleted[hooks[j].Manifest]
 //@   loop 1 invariant Kunwatched == old(Kunwatched) && Kcreated == old(Kcreated)
+//@   loop 1 invariant [C03] [no-call-failed-so-far] KcallFailed == old(KcallFailed)
 //@   loop 1 invariant forall m string :: old(Kdeleted)[m] ==> Kdeleted[m]
 //@   loop 1 invariant [only-hooks] forall l kube.ResourceList :: KtouchedLists[l] && !old(KtouchedLists)[l] ==> fresh(l)
 
@@ -108,11 +111,13 @@ package action
 //@   props C12
 //@   requires cfgReady(cfg) && rl != nil && rl.Info != nil && hooksNonNil(rl.Hooks)
 //@   ensures [gate] result == nil ==> forall m string :: Kunwatched[m] ==> old(Kunwatched)[m]
+//@   ensures [C03] [nil-means-no-cluster-call-failed] result == nil ==> KcallFailed == old(KcallFailed)
 //@   ensures [touches-only-hook-resources] forall l kube.ResourceList :: KtouchedLists[l] && !old(KtouchedLists)[l] ==> fresh(l)
 //@   ensures [hooks-kept] len(rl.Hooks) == old(len(rl.Hooks)) && (forall j int :: 0 <= j && j < len(rl.Hooks) ==> rl.Hooks[j] == old(rl.Hooks[j]))
 //@   ensures [config-kept] cfg.KubeClient == old(cfg.KubeClient) && cfg.Releases == old(cfg.Releases)
 //@   ensures [C03] [records-only-this-release] forall k string :: k != mkkey(rl.Name, rl.Version) ==> Dst[k] == old(Dst)[k]
 //@   ensures [C03] [ledger-kept] Dex == old(Dex) && Dname == old(Dname) && Dver == old(Dver)
+//@   ensures [C03] [manifests-kept] (forall k string :: k != mkkey(rl.Name, rl.Version) ==> Dman[k] == old(Dman)[k]) && (Dman[mkkey(rl.Name, rl.Version)] == old(Dman)[mkkey(rl.Name, rl.Version)] || Dman[mkkey(rl.Name, rl.Version)] == rl.Manifest) && rl.Manifest == old(rl.Manifest)
 //@   ensures [C03] [submits-only-this-release] (forall k string :: k != mkkey(rl.Name, rl.Version) ==> Dattempt[k] == old(Dattempt)[k]) && (Dattempt[mkkey(rl.Name, rl.Version)] == old(Dattempt)[mkkey(rl.Name, rl.Version)] || Dattempt[mkkey(rl.Name, rl.Version)] == rl.Info.Status)
 //@   ensures [C03] [release-kept] rl.Name == old(rl.Name) && rl.Version == old(rl.Version) && rl.Info == old(rl.Info) && (forall inf *release.Info :: inf.Status == old(inf.Status))
 //@   loop 1 invariant [sel] hooksNonNil(executingHooks) && (forall j int :: 0 <= j && j < len(executingHooks) ==> hasEvent(executingHooks[j], hook))
@@ -129,7 +134,9 @@ package action
 //@   loop 3 invariant [config-kept3] cfg.KubeClient == old(cfg.KubeClient) && cfg.Releases == old(cfg.Releases)
 //@   loop 3 invariant [C03] [records-only-this-release3] (forall k string :: k != mkkey(rl.Name, rl.Version) ==> Dst[k] == old(Dst)[k]) && Dex == old(Dex) && Dname == old(Dname) && Dver == old(Dver)
 //@   loop 3 invariant [C03] [submits-only-this-release3] (forall k string :: k != mkkey(rl.Name, rl.Version) ==> Dattempt[k] == old(Dattempt)[k]) && (Dattempt[mkkey(rl.Name, rl.Version)] == old(Dattempt)[mkkey(rl.Name, rl.Version)] || Dattempt[mkkey(rl.Name, rl.Version)] == rl.Info.Status)
+//@   loop 3 invariant [C03] [manifests-kept3] (forall k string :: k != mkkey(rl.Name, rl.Version) ==> Dman[k] == old(Dman)[k]) && (Dman[mkkey(rl.Name, rl.Version)] == old(Dman)[mkkey(rl.Name, rl.Version)] || Dman[mkkey(rl.Name, rl.Version)] == rl.Manifest) && rl.Manifest == old(rl.Manifest)
 //@   loop 3 invariant [C03] [release-kept3] rl.Name == old(rl.Name) && rl.Version == old(rl.Version) && rl.Info == old(rl.Info) && (forall inf *release.Info :: inf.Status == old(inf.Status))
+//@   loop 3 invariant [C03] [no-call-failed-so-far3] KcallFailed == old(KcallFailed)
 //@   loop 3 invariant [selected] forall j int :: 0 <= j && j < len(executingHooks) ==> hasEvent(executingHooks[j], hook)
 //@   loop 3 invariant [weight-order] weightOrdered(executingHooks)
 //@   loop 3 invariant [one-at-a-time] forall m string :: Kunwatched[m] ==> old(Kunwatched)[m]
@@ -140,7 +147,9 @@ package action
 //@   loop 4 invariant [config-kept4] cfg.KubeClient == old(cfg.KubeClient) && cfg.Releases == old(cfg.Releases)
 //@   loop 4 invariant [C03] [records-only-this-release4] (forall k string :: k != mkkey(rl.Name, rl.Version) ==> Dst[k] == old(Dst)[k]) && Dex == old(Dex) && Dname == old(Dname) && Dver == old(Dver)
 //@   loop 4 invariant [C03] [submits-only-this-release4] (forall k string :: k != mkkey(rl.Name, rl.Version) ==> Dattempt[k] == old(Dattempt)[k]) && (Dattempt[mkkey(rl.Name, rl.Version)] == old(Dattempt)[mkkey(rl.Name, rl.Version)] || Dattempt[mkkey(rl.Name, rl.Version)] == rl.Info.Status)
+//@   loop 4 invariant [C03] [manifests-kept4] (forall k string :: k != mkkey(rl.Name, rl.Version) ==> Dman[k] == old(Dman)[k]) && (Dman[mkkey(rl.Name, rl.Version)] == old(Dman)[mkkey(rl.Name, rl.Version)] || Dman[mkkey(rl.Name, rl.Version)] == rl.Manifest) && rl.Manifest == old(rl.Manifest)
 //@   loop 4 invariant [C03] [release-kept4] rl.Name == old(rl.Name) && rl.Version == old(rl.Version) && rl.Info == old(rl.Info) && (forall inf *release.Info :: inf.Status == old(inf.Status))
+//@   loop 4 invariant [C03] [no-call-failed-so-far4] KcallFailed == old(KcallFailed)
 //@   loop 4 invariant [nonnil4] hooksNonNil(executingHooks) && i < len(executingHooks)
 
 // ---- C13: value reuse policy (upgrade.go)
@@ -220,12 +229,19 @@ package action
 //@   props C06
 //@   requires r != nil && cfgReady(r.cfg) && ledgerWF() && currentRelease != nil && currentRelease.Info != nil && targetRelease != nil && targetRelease.Info != nil && hooksNonNil(targetRelease.Hooks)
 //@   requires [C09] [revision-record-created-before-any-mutation] r.DryRun || Dex[mkkey(targetRelease.Name, targetRelease.Version)]
+//@   requires [C03] [manifests-as-stored] r.DryRun || (currentRelease.Manifest == Dman[mkkey(currentRelease.Name, currentRelease.Version)] && targetRelease.Manifest == Dman[mkkey(targetRelease.Name, targetRelease.Version)])
+//@   ensures [C03] [stored-manifests-untouched] forall k string :: Dman[k] == old(Dman)[k]
+//@   ensures [C03] [manifest-kept] targetRelease.Manifest == old(targetRelease.Manifest)
+//@   loop 2 invariant [C03] [stored-manifests-untouched] forall k string :: Dman[k] == old(Dman)[k]
+//@   loop 2 invariant [C03] [deployed-as-stored] forall j int :: 0 <= j && j < len(deployed) ==> deployed[j] != nil && deployed[j].Info != nil && deployed[j].Manifest == Dman[mkkey(deployed[j].Name, deployed[j].Version)] && deployed[j] != targetRelease && deployed[j].Info != targetRelease.Info
+//@   loop 2 invariant [C03] [target-kept] targetRelease.Manifest == old(targetRelease.Manifest) && targetRelease.Info == old(targetRelease.Info) && targetRelease.Name == old(targetRelease.Name) && targetRelease.Version == old(targetRelease.Version) && Dex == old(Dex) && Dname == old(Dname) && Dver == old(Dver) && KcallFailed == old(KcallFailed) && r.DryRun == old(r.DryRun) && !r.DryRun
 //@   ensures [dry-run-no-cluster-mutation] old(r.DryRun) ==> Kmutated == old(Kmutated)
 //@   ensures [dry-run-no-storage-write] old(r.DryRun) ==> Dwritten == old(Dwritten)
 //@   ensures [selector-unchanged] r.DryRun == old(r.DryRun)
 //@   ensures [C03] [failure-recorded-or-left-to-the-caller] result1 != nil && !old(r.DryRun) ==> (targetRelease.Info.Status == "failed" && Dattempt[mkkey(targetRelease.Name, targetRelease.Version)] == "failed") || targetRelease.Info.Status == old(targetRelease.Info.Status)
 //@   ensures [C03] [release-kept] targetRelease.Info == old(targetRelease.Info) && targetRelease.Name == old(targetRelease.Name) && targetRelease.Version == old(targetRelease.Version) && Dex == old(Dex) && Dname == old(Dname) && Dver == old(Dver)
 //@   ensures [C03] [success-marks-deployed] result1 == nil && !old(r.DryRun) ==> result0 == targetRelease && targetRelease.Info.Status == "deployed"
+//@   ensures [C03] [success-only-if-no-step-failed] result1 == nil ==> KcallFailed == old(KcallFailed)
 
 //@ func (*Rollback).prepareRollback
 //@   props C06
@@ -234,14 +250,18 @@ package action
 //@   ensures [prepare-no-storage-write] Dwritten == old(Dwritten)
 //@   ensures [selector-unchanged] r.DryRun == old(r.DryRun)
 //@   ensures [results] result2 == nil ==> result0 != nil && result0.Info != nil && result1 != nil && result1.Info != nil && hooksNonNil(result1.Hooks)
+//@   ensures [C03] [current-as-stored] result2 == nil ==> result0.Manifest == Dman[mkkey(result0.Name, result0.Version)] && result0.Name == name
+//@   ensures [C03] [stored-manifests-untouched] Dman == old(Dman)
 //@   ensures [C01] [next-revision] result2 == nil ==> fresh(result1) && result1.Name == name && aboveAll(name, result1.Version) && result1.Version == result0.Version + 1 && result1.Info.Status == "pending-rollback"
-//@   ensures [C01] [C13] [carries-target-revision] result2 == nil ==> exists prev *release.Release :: stored(prev) && prev.Name == name && (old(r.Version) != 0 ==> prev.Version == old(r.Version)) && (old(r.Version) == 0 ==> prev.Version == result0.Version - 1) && result1.Chart == prev.Chart && result1.Config == prev.Config && result1.Manifest == prev.Manifest && result1.Hooks == prev.Hooks && result1.Labels == prev.Labels
+//@   ensures [C01] [C03] [C13] [carries-target-revision] result2 == nil ==> exists prev *release.Release :: stored(prev) && prev.Name == name && (old(r.Version) != 0 ==> prev.Version == old(r.Version)) && (old(r.Version) == 0 ==> prev.Version == result0.Version - 1) && result1.Chart == prev.Chart && result1.Config == prev.Config && result1.Manifest == prev.Manifest && result1.Hooks == prev.Hooks && result1.Labels == prev.Labels
 
 //@ func (*Rollback).Run
 //@   props C06
 //@   requires r != nil && cfgReady(r.cfg) && ledgerWF()
 //@   ensures [dry-run-no-cluster-mutation] old(r.DryRun) ==> Kmutated == old(Kmutated)
 //@   ensures [dry-run-no-storage-write] old(r.DryRun) ==> Dwritten == old(Dwritten)
+//@   ensures [C01] [C03] [rolls-back-to-the-requested-revision] result == nil && !old(r.DryRun) && old(r.Version) > 0 ==> (exists v int :: !old(Dex)[mkkey(name, v)] && Dex[mkkey(name, v)] && Dattempt[mkkey(name, v)] == "deployed" && Dman[mkkey(name, v)] == old(Dman)[mkkey(name, old(r.Version))])
+//@   ensures [C01] [C03] [restores-a-stored-revision] result == nil && !old(r.DryRun) ==> (exists v int, t int :: (old(r.Version) != 0 ==> t == old(r.Version)) && old(Dex)[mkkey(name, t)] && !old(Dex)[mkkey(name, v)] && Dex[mkkey(name, v)] && Dattempt[mkkey(name, v)] == "deployed" && Dman[mkkey(name, v)] == old(Dman)[mkkey(name, t)])
 // (the status last submitted for the new revision is "deployed" with an error only when the final storage write itself failed)
 //@   ensures [C03] [failed-rollback-never-leaves-the-new-revision-pending] result != nil && !old(r.DryRun) ==> forall v int :: !old(Dex)[mkkey(name, v)] && Dex[mkkey(name, v)] ==> Dattempt[mkkey(name, v)] == "failed" || Dattempt[mkkey(name, v)] == "deployed"
 
@@ -315,6 +335,7 @@ package action
 //@   requires cfgReady(cfg) && r != nil && r.Info != nil
 //@   ensures [took-effect-or-not] Dst == store(old(Dst), mkkey(r.Name, r.Version), r.Info.Status) || Dst == old(Dst)
 //@   ensures [attempt-recorded] Dattempt == store(old(Dattempt), mkkey(r.Name, r.Version), r.Info.Status)
+//@   ensures [manifest-took-effect-or-not] Dman == store(old(Dman), mkkey(r.Name, r.Version), r.Manifest) || Dman == old(Dman)
 //@   ensures [frame] Dex == old(Dex) && Dname == old(Dname) && Dver == old(Dver) && Kmutated == old(Kmutated) && Kunwatched == old(Kunwatched) && Kdeleted == old(Kdeleted) && Kcreated == old(Kcreated)
 
 //@ func (*Install).performInstall
@@ -325,6 +346,7 @@ package action
 //@   ensures [C12] [post-hook-failure-fails-the-operation] at "failed post-install" result1 != nil
 //@   ensures [success-marks-deployed] result1 == nil ==> result0 == rel && rel.Info.Status == "deployed"
 //@   ensures [failure-returns-the-release] result1 != nil ==> result0 == rel
+//@   ensures [C03] [success-only-if-no-step-failed] result1 == nil ==> KcallFailed == old(KcallFailed)
 //@   ensures [ledger-kept] Dex == old(Dex) && Dname == old(Dname) && Dver == old(Dver)
 //@   ensures [release-kept] rel.Info == old(rel.Info) && rel.Name == old(rel.Name) && rel.Version == old(rel.Version)
 
@@ -345,6 +367,7 @@ package action
 //@   ensures [others-keep-status] !old(u.Atomic) ==> forall k string :: k != mkkey(rel.Name, rel.Version) ==> Dst[k] == old(Dst)[k] && Dattempt[k] == old(Dattempt)[k]
 //@   ensures [touches-only-this-release] !old(u.Atomic) ==> forall inf *release.Info :: inf != rel.Info ==> inf.Status == old(inf.Status)
 //@   ensures [no-cleanup-without-flag] !old(u.CleanupOnFail) && !old(u.Atomic) ==> Kdeleted == old(Kdeleted) && Kmutated == old(Kmutated)
+//@   ensures [atomic-restores-a-stored-revision] at "has been rolled back due to atomic" (exists v int, t int :: old(Dex)[mkkey(rel.Name, t)] && !old(Dex)[mkkey(rel.Name, v)] && Dex[mkkey(rel.Name, v)] && Dattempt[mkkey(rel.Name, v)] == "deployed" && (Dman[mkkey(rel.Name, v)] == old(Dman)[mkkey(rel.Name, t)] || Dman[mkkey(rel.Name, v)] == rel.Manifest))
 //@   ensures [cleanup-deletes-only-created] old(u.CleanupOnFail) && !old(u.Atomic) ==> Kdeleted == old(Kdeleted) || Kdeleted == store(old(Kdeleted), builtFrom(created), true)
 //@   loop 1 invariant Kdeleted == store(old(Kdeleted), builtFrom(created), true) && rel.Info.Status == "failed"
 
@@ -413,7 +436,7 @@ package action
 //@   ensures [reports-once] nsent(c) == old(nsent(c)) + 1
 //@   ensures [error-stays-error] err != nil ==> sent(c).e != nil && sent(c).r == rel
 //@   ensures [failure-marks-failed] err != nil && !old(u.Atomic) ==> rel.Info.Status == "failed"
-//@   ensures [success-passes-through] err == nil ==> sent(c).e == nil && sent(c).r == rel && Dst == old(Dst) && Dex == old(Dex) && Kdeleted == old(Kdeleted) && Kmutated == old(Kmutated)
+//@   ensures [success-passes-through] err == nil ==> sent(c).e == nil && sent(c).r == rel && Dst == old(Dst) && Dex == old(Dex) && Kdeleted == old(Kdeleted) && Kmutated == old(Kmutated) && KcallFailed == old(KcallFailed)
 //@   ensures [others-keep-status] !old(u.Atomic) ==> forall k string :: err == nil || k != mkkey(rel.Name, rel.Version) ==> Dst[k] == old(Dst)[k] && Dattempt[k] == old(Dattempt)[k]
 //@   ensures [failure-records-failed] err != nil && !old(u.Atomic) ==> Dattempt[mkkey(rel.Name, rel.Version)] == "failed"
 //@   ensures [touches-only-this-release] !old(u.Atomic) ==> forall inf *release.Info :: inf != rel.Info ==> inf.Status == old(inf.Status)
@@ -431,6 +454,7 @@ package action
 //@   ensures [failure-keeps-previous-revision-record] sent(c).e != nil && !old(u.Atomic) ==> Dst[mkkey(originalRelease.Name, originalRelease.Version)] == old(Dst)[mkkey(originalRelease.Name, originalRelease.Version)] || Dst[mkkey(originalRelease.Name, originalRelease.Version)] == old(originalRelease.Info.Status)
 //@   ensures [failure-never-submits-another-status-for-the-previous-revision] sent(c).e != nil && !old(u.Atomic) ==> Dattempt[mkkey(originalRelease.Name, originalRelease.Version)] == old(Dattempt)[mkkey(originalRelease.Name, originalRelease.Version)] || Dattempt[mkkey(originalRelease.Name, originalRelease.Version)] == old(originalRelease.Info.Status)
 //@   ensures [failure-records-failed] sent(c).e != nil && !old(u.Atomic) ==> Dattempt[mkkey(upgradedRelease.Name, upgradedRelease.Version)] == "failed"
+//@   ensures [success-only-if-no-step-failed] sent(c).e == nil ==> KcallFailed == old(KcallFailed)
 //@   ensures [success-marks-deployed-and-superseded] sent(c).e == nil ==> upgradedRelease.Info.Status == "deployed" && originalRelease.Info.Status == "superseded"
 
 // renderResources (template rendering, post-renderers, manifest sorting) is not under contract; the one
